@@ -345,6 +345,81 @@ func overlapFile(seed int64) *pipesup.File {
 	return f
 }
 
+// ---- fixed corpus: consecutive zlib blocks whose string tables have the SAME encoded length and
+// position but different strings (tags k0=v0 / k1=v1 / ..., user names u0 / u1 / ...), same node
+// counts, so every block inflates to the same layout in a decoder's reused buffer: any state a
+// decoder keeps from the block it decoded before (string table, offsets, buffers) shows up as
+// wrong tags / users.  Scanned with procs 1, 2, 3, 4, objects retained.
+func corpusSameLayout() *pbfgen.FileDesc {
+	d := &pbfgen.FileDesc{Header: &pbfgen.Header{Required: []string{"OsmSchema-V0.6", "DenseNodes"}}}
+	id := int64(0)
+	for i := 0; i < 9; i++ {
+		blk := &pbfgen.Block{Strings: []string{""}}
+		blk.Zlib = true
+		tag := blk.Tag(fmt.Sprintf("k%d", i), fmt.Sprintf("v%d", i))
+		user := blk.Sid(fmt.Sprintf("u%d", i))
+		dn := &pbfgen.Dense{HasInfo: true, Cols: pbfgen.AllInfo, HasKeysVals: true}
+		for j := 0; j < 3; j++ {
+			id++
+			dn.Nodes = append(dn.Nodes, pbfgen.DenseNode{ID: id, Lat: 1000 + id, Lon: 2000 + id,
+				Info: pbfgen.Info{Version: 1, Timestamp: 1000, Changeset: 5, UID: 7, UserSid: user, Visible: true}, Tags: []pbfgen.Tag{tag}})
+		}
+		blk.Groups = []*pbfgen.Group{{Items: []pbfgen.Item{{Dense: dn}}}}
+		d.Blocks = append(d.Blocks, blk)
+	}
+	return d
+}
+
+func corpusCases() []*wire.Case {
+	d := corpusSameLayout()
+	data, _ := pbfgen.Encode(d)
+	var out []*wire.Case
+	for procs := 1; procs <= 4; procs++ {
+		r := scanRich(data, procs, 0, int64(procs), [3]bool{})
+		c := &wire.Case{Class: "rich-corpus"}
+		c.Int(3).Int(int64(procs)).Bool(false)
+		c.Len(len(d.Blocks))
+		var exp []uint64
+		for i, b := range d.Blocks {
+			t := pbfrun.BlockToks(b, i, [3]bool{})
+			exp = append(exp, t...)
+			c.Len(len(t))
+			for _, x := range t {
+				c.Tok(x)
+			}
+		}
+		c.Int(0)
+		c.Len(len(r.Toks))
+		for _, x := range r.Toks {
+			c.Tok(x)
+		}
+		c.Int(r.Err)
+		c.Len(len(r.Retained))
+		for _, x := range r.Retained {
+			c.Tok(x)
+		}
+		c.Len(len(exp)) // the expectation also stands for the single-decoder scan (procs = 1 is one of the cases)
+		for _, x := range exp {
+			c.Tok(x)
+		}
+		c.Int(0)
+		if r.Retain != "" {
+			c.OracleFail = r.Retain
+		}
+		first := -1
+		for i := range r.Toks {
+			if i >= len(exp) || r.Toks[i] != exp[i] {
+				first = i
+				break
+			}
+		}
+		c.Desc = map[string]interface{}{"procs": procs, "file": "fixed corpus: 9 zlib blocks x 3 dense nodes, block i has tag k<i>=v<i> and user u<i> (string tables of identical encoded length and position)",
+			"delivered_tokens": r.Toks, "expected_tokens": exp, "first_difference_at_object": first, "err": r.Err}
+		out = append(out, c)
+	}
+	return out
+}
+
 // overlapBad: the child answered, but not with the file's elements
 func overlapBad(c *wire.Case) bool {
 	d := c.Desc.(map[string]interface{})
@@ -443,6 +518,10 @@ func main() {
 			os.Exit(1)
 		}
 		return
+	}
+	for _, c := range corpusCases() {
+		w.Add(c)
+		w.Count("rich-corpus")
 	}
 	var first *wire.Case
 	for i := 0; i < nFull+nCut; i++ {
